@@ -46,6 +46,12 @@ enum Call {
     /// `execute` in which the first action that runs takes longer than the engine's timeout (only
     /// in cases with `timeout_ms`): the call ends on the timeout error path
     ExecSlow,
+    /// `execute` (or, odd index, `execute_with_callback`) during which the LAST action of rule
+    /// #i (the harness's trace action; the rule's own actions have run) returns an error the
+    /// first time that rule fires, so the call returns Err in the middle of a pass. Only rules
+    /// without no-loop / lock-on-active / activation-group are chosen: whether a rule whose
+    /// action failed "has fired" for those attributes is not stated.
+    ExecFailing(usize),
 }
 
 #[derive(Clone, Debug)]
@@ -65,6 +71,10 @@ struct Case {
     calls: Vec<Call>,
     /// EngineConfig.timeout in milliseconds (None = no timeout)
     timeout_ms: Option<u64>,
+    /// how the date windows reach the rules: None = the `date_effective` / `date_expires` fields
+    /// are set to the instant; Some(minutes) = through `with_date_effective_str` /
+    /// `with_date_expires_str` with an RFC 3339 text of the SAME instant written at that UTC offset
+    dates_as_text_at_offset_min: Option<i32>,
 }
 
 fn call_json(c: &Call) -> Json {
@@ -83,6 +93,7 @@ fn call_json(c: &Call) -> Json {
         Call::WorkflowStep(g) => json!({"execute_workflow_step": g}),
         Call::RemoveRule(i) => json!({"remove_rule": i}),
         Call::ReAddRule(i) => json!({"re_add_rule": i}),
+        Call::ExecFailing(i) => json!({"execute_in_which_the_last_action_of_this_rule_fails_once": i}),
     }
 }
 fn call_from(j: &Json) -> Option<Call> {
@@ -97,6 +108,9 @@ fn call_from(j: &Json) -> Option<Call> {
             "reset_no_loop_tracking" => Call::ResetNoLoop,
             _ => return None,
         });
+    }
+    if let Some(i) = j.get("execute_in_which_the_last_action_of_this_rule_fails_once") {
+        return Some(Call::ExecFailing(i.as_u64()? as usize));
     }
     if let Some(t) = j.get("execute_at_time_ms") {
         return Some(Call::ExecAt(t.as_i64()?));
@@ -141,6 +155,7 @@ impl Case {
             "max_cycles": self.max_cycles,
             "calls": self.calls.iter().map(call_json).collect::<Vec<_>>(),
             "timeout_ms": self.timeout_ms,
+            "dates_as_text_at_offset_min": self.dates_as_text_at_offset_min,
         })
     }
     fn from_json(j: &Json) -> Option<Case> {
@@ -160,6 +175,7 @@ impl Case {
             max_cycles: j.get("max_cycles")?.as_u64()? as usize,
             calls: j.get("calls")?.as_array()?.iter().map(call_from).collect::<Option<Vec<_>>>()?,
             timeout_ms: j.get("timeout_ms").and_then(|v| v.as_u64()),
+            dates_as_text_at_offset_min: j.get("dates_as_text_at_offset_min").and_then(|v| v.as_i64()).map(|v| v as i32),
         })
     }
 }
@@ -174,6 +190,7 @@ thread_local! {
     static TRACE: RefCell<Vec<Tr>> = const { RefCell::new(Vec::new()) };
     /// the next Trace action sleeps this long (once)
     static SLOW_MS: std::cell::Cell<u64> = const { std::cell::Cell::new(0) };
+    static FAIL_RULE: RefCell<Option<String>> = const { RefCell::new(None) };
 }
 
 struct StepBound;
@@ -190,6 +207,8 @@ struct Obs {
     exec_err: u64,
     slow_calls: u64,
     kb_replacements: u64,
+    dates_given_as_text: bool,
+    injected_failures: u64,
     timeout_errs: u64,
     tie_pairs_seen: u64,
     loa_firings: u64,
@@ -233,8 +252,37 @@ fn judge(case: &Case) -> (Verdict, Obs) {
         rule.lock_on_active = r.ast.attrs.lock_on_active;
         rule.agenda_group = r.ast.attrs.agenda_group.clone();
         rule.activation_group = r.ast.attrs.activation_group.clone();
-        rule.date_effective = r.effective.map(to_dt);
-        rule.date_expires = r.expires.map(to_dt);
+        match case.dates_as_text_at_offset_min {
+            None => {
+                rule.date_effective = r.effective.map(to_dt);
+                rule.date_expires = r.expires.map(to_dt);
+            }
+            Some(off) => {
+                let text = |ms: i64| {
+                    let tz = chrono::FixedOffset::east_opt(off * 60).expect("offset in range");
+                    to_dt(ms).with_timezone(&tz).to_rfc3339_opts(chrono::SecondsFormat::Millis, off == 0 && ms % 2 == 0)
+                };
+                if let Some(ms) = r.effective {
+                    rule = match rule.with_date_effective_str(&text(ms)) {
+                        Ok(x) => x,
+                        Err(_) => {
+                            obs.setup_failed = true;
+                            return (None, obs);
+                        }
+                    };
+                }
+                if let Some(ms) = r.expires {
+                    rule = match rule.with_date_expires_str(&text(ms)) {
+                        Ok(x) => x,
+                        Err(_) => {
+                            obs.setup_failed = true;
+                            return (None, obs);
+                        }
+                    };
+                }
+                obs.dates_given_as_text = r.effective.is_some() || r.expires.is_some() || obs.dates_given_as_text;
+            }
+        }
         rule.enabled = r.enabled;
         built.push(rule.clone());
         if kb.add_rule(rule).is_err() {
@@ -256,7 +304,19 @@ fn judge(case: &Case) -> (Verdict, Obs) {
             other => format!("{:?}", other),
         };
         let snap = Store::from_engine_map(&facts.get_all_facts());
+        let fail = FAIL_RULE.with(|f| {
+            let mut f = f.borrow_mut();
+            if f.as_deref() == Some(name.as_str()) {
+                *f = None;
+                true
+            } else {
+                false
+            }
+        });
         TRACE.with(|t| t.borrow_mut().push(Tr::Fire(name, snap)));
+        if fail {
+            return Err(rust_rule_engine::RuleEngineError::EvaluationError { message: "injected action failure".into() });
+        }
         Ok(())
     });
     let facts = case.store.to_facts();
@@ -401,6 +461,15 @@ fn judge(case: &Case) -> (Verdict, Obs) {
             }
             Call::ExecAt(t) => exec_t = Some(Some(*t)),
             Call::ExecNow | Call::ExecCallback => exec_t = Some(None),
+            Call::ExecFailing(i) => {
+                if *i < n {
+                    let a = &case.rules[*i].ast.attrs;
+                    if !a.no_loop && !a.lock_on_active && a.activation_group.is_none() {
+                        FAIL_RULE.with(|f| *f.borrow_mut() = Some(case.rules[*i].ast.name.clone()));
+                    }
+                }
+                exec_t = Some(None);
+            }
             Call::ExecSlow => {
                 if let Some(t) = case.timeout_ms {
                     SLOW_MS.with(|s| s.set(t + 60));
@@ -438,12 +507,16 @@ fn judge(case: &Case) -> (Verdict, Obs) {
         let res = pan::catch_frames(|| match (call, t) {
             (Call::WorkflowStep(g), _) => engine.execute_workflow_step(g, &facts).map(|_| ()),
             (Call::ExecCallback, _) => engine.execute_with_callback(&facts, |_name, _facts| {}).map(|_| ()),
+            (Call::ExecFailing(i), _) if i % 2 == 1 => engine.execute_with_callback(&facts, |_name, _facts| {}).map(|_| ()),
             (_, Some(ts)) => engine.execute_at_time(&facts, to_dt(ts)).map(|_| ()),
             (_, None) => engine.execute(&facts).map(|_| ()),
         });
         verif_hooks::set_event_observer(None);
         let _ = verif_hooks::take_events();
         let trace: Vec<Tr> = TRACE.with(|tr| std::mem::take(&mut *tr.borrow_mut()));
+        if FAIL_RULE.with(|f| f.borrow_mut().take()).is_none() && matches!(call, Call::ExecFailing(_)) && matches!(res, Ok(Err(_))) {
+            obs.injected_failures += 1;
+        }
         match &res {
             Ok(Ok(())) => {}
             Ok(Err(e)) => {
@@ -762,6 +835,10 @@ fn record(case: &Case, st: &mut Stats) {
     st.add("execute_returned_err", obs.exec_err);
     st.add("execute_calls_with_a_slow_first_action", obs.slow_calls);
     st.add("knowledge_base_replaced_wholesale", obs.kb_replacements);
+    st.add("execute_calls_that_returned_err_in_mid_pass_on_an_injected_action_failure", obs.injected_failures);
+    if obs.dates_given_as_text {
+        st.count("cases_whose_date_windows_went_through_the_rfc3339_text_builders(offsets Z,+02:00,-05:00,+05:30,+14:00,-12:00,+00:01)");
+    }
     st.add("execute_calls_that_ended_on_the_timeout_error", obs.timeout_errs);
     st.add("equal_salience_successive_firings", obs.tie_pairs_seen);
     st.add("focus_changes_by_ActivateAgendaGroup_action", obs.focus_changes_by_action);
@@ -863,13 +940,17 @@ fn gen_case(rng: &mut Rng) -> Case {
                 let off = *rng.pick(&[-SEC, -1, 0, 0, 1, SEC, 200, 250, 251, 499, 500, 501, 700, 999, 3 * DAY]);
                 Call::ExecAt(base + off)
             }
-            8 => {
-                if rng.bool() {
-                    Call::ExecNow
-                } else {
-                    Call::ExecCallback
+            8 => match rng.below(3) {
+                0 => Call::ExecNow,
+                1 => Call::ExecCallback,
+                _ => {
+                    let ok: Vec<usize> = (0..n).filter(|i| {
+                        let a = &rules[*i].ast.attrs;
+                        !a.no_loop && !a.lock_on_active && a.activation_group.is_none()
+                    }).collect();
+                    if ok.is_empty() { Call::ExecNow } else { Call::ExecFailing(*rng.pick(&ok)) }
                 }
-            }
+            },
             9..=11 => Call::SetFocus(grp(rng)),
             12 => Call::Pop,
             13 => Call::Clear,
@@ -888,7 +969,8 @@ fn gen_case(rng: &mut Rng) -> Case {
     if !calls.iter().any(|c| matches!(c, Call::ExecAt(_) | Call::ExecNow | Call::ExecCallback | Call::WorkflowStep(_))) {
         calls.push(Call::ExecAt(T0 + DAY));
     }
-    Case { rules, store, max_cycles: 1 + rng.below(5), calls, timeout_ms: None }
+    let dates_as_text_at_offset_min = if rng.chance(1, 4) { Some(*rng.pick(&[0i32, 120, -300, 330, 840, -720, 1])) } else { None };
+    Case { rules, store, max_cycles: 1 + rng.below(5), calls, timeout_ms: None, dates_as_text_at_offset_min }
 }
 
 /// A history on an engine WITH a timeout in which one execute ends on the timeout error path
@@ -968,6 +1050,7 @@ fn attribute_grid() -> Vec<Case> {
                 max_cycles: 3,
                 calls: vec![Call::ExecAt(T0 + 10), Call::SetFocus("G1".into()), Call::ExecAt(T0 + 10), Call::ExecAt(T0 + 2 * DAY), Call::Clear, Call::ExecAt(T0 + 10), Call::ResetNoLoop, Call::ExecCallback, Call::ExecCallback],
                 timeout_ms: None,
+                dates_as_text_at_offset_min: None,
             });
         }
     }
